@@ -20,11 +20,13 @@ pub trait Read: Sized {
 	spec fn consumed(&self) -> Seq<u8>;
 	spec fn hit_eof(&self) -> bool;
 	spec fn inv(&self) -> bool;
+	// implementor-specific mode flag that reading never changes (for HashingReader: "hashing is on")
+	spec fn stable(&self) -> bool;
 
 	// one raw read: delivers SOME prefix of what remains (0 < k <= min(len, rest) unless nothing remains / len == 0)
 	fn read(&mut self, buf: &mut [u8]) -> (res: std::result::Result<usize, IoError>)
 		requires (*old(self)).inv(),
-		ensures (*final(self)).inv(),
+		ensures (*final(self)).inv(), (*final(self)).stable() == (*old(self)).stable(),
 			final(buf)@.len() == old(buf)@.len(),
 			res is Ok ==> res->Ok_0 <= final(buf)@.len() && res->Ok_0 <= (*old(self)).rest().len()
 				&& final(buf)@.subrange(0, res->Ok_0 as int) == (*old(self)).rest().subrange(0, res->Ok_0 as int)
@@ -36,7 +38,7 @@ pub trait Read: Sized {
 	#[verifier::external_body]
 	fn read_exact(&mut self, buf: &mut [u8]) -> (res: std::result::Result<(), IoError>)
 		requires (*old(self)).inv(),
-		ensures (*final(self)).inv(),
+		ensures (*final(self)).inv(), (*final(self)).stable() == (*old(self)).stable(),
 			final(buf)@.len() == old(buf)@.len(),
 			(*old(self)).rest().len() >= old(buf)@.len() ==> res is Ok
 				&& final(buf)@ == (*old(self)).rest().subrange(0, old(buf)@.len() as int)
@@ -54,7 +56,7 @@ pub trait Read: Sized {
 	#[verifier::external_body]
 	fn read_u8(&mut self) -> (res: std::result::Result<u8, IoError>)
 		requires (*old(self)).inv(),
-		ensures (*final(self)).inv(),
+		ensures (*final(self)).inv(), (*final(self)).stable() == (*old(self)).stable(),
 			(*old(self)).rest().len() >= 1 ==> res is Ok && res->Ok_0 == be_u8((*old(self)).rest(), 0)
 				&& (*final(self)).rest() == skip((*old(self)).rest(), 1)
 				&& (*final(self)).consumed() == (*old(self)).consumed() + (*old(self)).rest().subrange(0, 1)
@@ -64,7 +66,7 @@ pub trait Read: Sized {
 	#[verifier::external_body]
 	fn read_u32<B>(&mut self) -> (res: std::result::Result<u32, IoError>)
 		requires (*old(self)).inv(),
-		ensures (*final(self)).inv(),
+		ensures (*final(self)).inv(), (*final(self)).stable() == (*old(self)).stable(),
 			(*old(self)).rest().len() >= 4 ==> res is Ok && res->Ok_0 == be_u32((*old(self)).rest(), 0)
 				&& (*final(self)).rest() == skip((*old(self)).rest(), 4)
 				&& (*final(self)).consumed() == (*old(self)).consumed() + (*old(self)).rest().subrange(0, 4)
@@ -78,6 +80,7 @@ impl<R: Read> Read for &mut R {
 	open spec fn rest(&self) -> Seq<u8> { (**self).rest() }
 	open spec fn consumed(&self) -> Seq<u8> { (**self).consumed() }
 	open spec fn hit_eof(&self) -> bool { (**self).hit_eof() }
+	open spec fn stable(&self) -> bool { (**self).stable() }
 	open spec fn inv(&self) -> bool { (**self).inv() }
 	#[verifier::external_body]
 	fn read(&mut self, buf: &mut [u8]) -> (res: std::result::Result<usize, IoError>) { unimplemented!() }
@@ -88,7 +91,7 @@ pub trait Seek: Read {
 	fn seek(&mut self, pos: SeekFrom) -> (res: std::result::Result<u64, IoError>)
 		requires (*old(self)).inv(),
 		ensures (*final(self)).inv(), (*final(self)).consumed() == (*old(self)).consumed(),
-			(*old(self)).hit_eof() ==> (*final(self)).hit_eof(),
+			(*final(self)).hit_eof() == (*old(self)).hit_eof(),
 			// Seek::seek(Current(k)) moves the position by k with no bounds check (may pass the end)
 			res is Ok && pos is Current && pos->Current_0 >= 0 ==> (*final(self)).rest() == (if pos->Current_0 <= (*old(self)).rest().len() { skip((*old(self)).rest(), pos->Current_0 as int) } else { Seq::<u8>::empty() });
 }
